@@ -214,20 +214,29 @@ contains
     call ier_out(ier); if (ier == 0) call kv('np', int(np, 8)); call pf('name', o); call pf('file', o2); call pf('cad', o3); call nl()
   end subroutine
 
-  ! cg_goto_f / cg_gorel_f with 1..4 label/index pairs: the labels are CHARACTER(32) variables (trailing blanks)
+  ! cg_goto_f / cg_gorel_f with 0..4 label/index pairs.  The labels are exact-length heap strings: a zero-length
+  ! CHARACTER actual, an all-blank one and one with trailing blanks are all representable (cg_goto_f TRIMs them).
   subroutine op_gotov()
     integer :: B, k, ier, i, ix(4)
-    type(fstr) :: s
-    character(len=32) :: lab(4)
-    B = int(ti()); k = int(ti()); lab = ' '; ix = 0
-    do i = 1, min(k, 4)
-      call ts(s); lab(i) = s%p; ix(i) = int(ti())
-    end do
+    type(fstr) :: s1, s2, s3, s4
+    B = int(ti()); k = int(ti()); ix = 0
+    if (k >= 1) then
+      call ts(s1); ix(1) = int(ti())
+    end if
+    if (k >= 2) then
+      call ts(s2); ix(2) = int(ti())
+    end if
+    if (k >= 3) then
+      call ts(s3); ix(3) = int(ti())
+    end if
+    if (k >= 4) then
+      call ts(s4); ix(4) = int(ti())
+    end if
     select case (k)
-    case (1); call cg_goto_f(fn, B, ier, lab(1), ix(1), 'end')
-    case (2); call cg_goto_f(fn, B, ier, lab(1), ix(1), lab(2), ix(2), 'end')
-    case (3); call cg_goto_f(fn, B, ier, lab(1), ix(1), lab(2), ix(2), lab(3), ix(3), 'end')
-    case (4); call cg_goto_f(fn, B, ier, lab(1), ix(1), lab(2), ix(2), lab(3), ix(3), lab(4), ix(4), 'end')
+    case (1); call cg_goto_f(fn, B, ier, s1%p, ix(1), 'end')
+    case (2); call cg_goto_f(fn, B, ier, s1%p, ix(1), s2%p, ix(2), 'end')
+    case (3); call cg_goto_f(fn, B, ier, s1%p, ix(1), s2%p, ix(2), s3%p, ix(3), 'end')
+    case (4); call cg_goto_f(fn, B, ier, s1%p, ix(1), s2%p, ix(2), s3%p, ix(3), s4%p, ix(4), 'end')
     case default; call cg_goto_f(fn, B, ier, 'end')
     end select
     call ier_out(ier); call nl()
@@ -235,20 +244,60 @@ contains
 
   subroutine op_gorelv()
     integer :: k, ier, i, ix(4)
-    type(fstr) :: s
-    character(len=32) :: lab(4)
-    k = int(ti()); lab = ' '; ix = 0
-    do i = 1, min(k, 4)
-      call ts(s); lab(i) = s%p; ix(i) = int(ti())
-    end do
+    type(fstr) :: s1, s2, s3, s4
+    k = int(ti()); ix = 0
+    if (k >= 1) then
+      call ts(s1); ix(1) = int(ti())
+    end if
+    if (k >= 2) then
+      call ts(s2); ix(2) = int(ti())
+    end if
+    if (k >= 3) then
+      call ts(s3); ix(3) = int(ti())
+    end if
+    if (k >= 4) then
+      call ts(s4); ix(4) = int(ti())
+    end if
     select case (k)
-    case (1); call cg_gorel_f(fn, ier, lab(1), ix(1), 'end')
-    case (2); call cg_gorel_f(fn, ier, lab(1), ix(1), lab(2), ix(2), 'end')
-    case (3); call cg_gorel_f(fn, ier, lab(1), ix(1), lab(2), ix(2), lab(3), ix(3), 'end')
-    case (4); call cg_gorel_f(fn, ier, lab(1), ix(1), lab(2), ix(2), lab(3), ix(3), lab(4), ix(4), 'end')
+    case (1); call cg_gorel_f(fn, ier, s1%p, ix(1), 'end')
+    case (2); call cg_gorel_f(fn, ier, s1%p, ix(1), s2%p, ix(2), 'end')
+    case (3); call cg_gorel_f(fn, ier, s1%p, ix(1), s2%p, ix(2), s3%p, ix(3), 'end')
+    case (4); call cg_gorel_f(fn, ier, s1%p, ix(1), s2%p, ix(2), s3%p, ix(3), s4%p, ix(4), 'end')
     case default; call cg_gorel_f(fn, ier, 'end')
     end select
     call ier_out(ier); call nl()
+  end subroutine
+
+  ! where: the position as the LIBRARY reports it (C API cg_where through BIND(C): an observer, not a binding under test)
+  subroutine op_where()
+    interface
+      function c_cg_where(f, B, depth, label, num) bind(C, name="cg_where") result(r)
+        import :: c_int, c_ptr
+        integer(c_int) :: f, B, depth
+        type(c_ptr) :: label(*)
+        integer(c_int) :: num(*)
+        integer(c_int) :: r
+      end function
+    end interface
+    character(kind=c_char, len=33), target :: lab(20)
+    type(c_ptr) :: labs(20)
+    integer(c_int) :: f2, B, depth, num(20), r
+    integer :: i, n
+    f2 = 0; B = 0; depth = 0; num = 0
+    do i = 1, 20
+      lab(i) = repeat(c_null_char, 33); labs(i) = c_loc(lab(i))
+    end do
+    r = c_cg_where(f2, B, depth, labs, num)
+    call ier_out(int(r))
+    if (r == 0) then
+      call kv('same', int(merge(1, 0, f2 == fn), 8)); call kv('B', int(B, 8)); call kv('depth', int(depth, 8))
+      do i = 1, min(depth, 20)
+        n = index(lab(i), c_null_char) - 1
+        if (n < 0) n = 33
+        call emit(' ' // lab(i)(1:n) // ':'); call emit_i(int(num(i), 8))
+      end do
+    end if
+    call nl()
   end subroutine
 
   ! ------------------------------------------------------------------ (2) declared-length battery
@@ -258,10 +307,16 @@ contains
     v%c33 = repeat(achar(126), 33); v%c40 = repeat(achar(126), 40); v%c80 = repeat(achar(126), 80); v%t80 = repeat(achar(126), 80)
   end subroutine
 
-  subroutine dl_set(L, s)          ! Fortran assignment to the CHARACTER(L) variable: blank-pads or cuts
+  subroutine dl_set(L, s)          ! reset, then Fortran assignment to the CHARACTER(L) variable: blank-pads or cuts
     integer, intent(in) :: L
     character(len=*), intent(in) :: s
     call dl_reset()
+    call dl_assign(L, s)
+  end subroutine
+
+  subroutine dl_assign(L, s)
+    integer, intent(in) :: L
+    character(len=*), intent(in) :: s
     select case (L)
     case (1); v%c1 = s
     case (8); v%c8 = s
@@ -271,6 +326,27 @@ contains
     case (40); v%c40 = s
     case (80); v%c80 = s
     end select
+  end subroutine
+
+  subroutine dl_print_oob(tag, L)  ! only the guard fields around the variable of length L (content varies: dates)
+    character(len=*), intent(in) :: tag
+    integer, intent(in) :: L
+    integer :: p0
+    p0 = opos
+    call dl_print(tag, L)
+    ! keep " tag=" and "/oob:..." , drop the hex content in between
+    call strip_hex(p0, len(tag) + 2)
+  end subroutine
+
+  subroutine strip_hex(p0, skip)
+    integer, intent(in) :: p0, skip
+    integer :: a, b
+    a = p0 + skip
+    b = index(outl(a + 1:opos), '/oob:')
+    if (b > 0) then
+      outl(a + 1:a + (opos - (a + b - 1))) = outl(a + b:opos)
+      opos = a + (opos - (a + b - 1))
+    end if
   end subroutine
 
   subroutine dl_print(tag, L)      ! the variable of length L with the guard fields on either side
@@ -398,6 +474,7 @@ contains
     B = int(ti()); L = int(ti()); call ts(n); idx = int(ti()); ier = -99
     call dl_set(L, n%p)
     select case (L)
+    case (1); call cg_goto_f(fn, B, ier, v%c1, idx, 'end')
     case (8); call cg_goto_f(fn, B, ier, v%c8, idx, 'end')
     case (31); call cg_goto_f(fn, B, ier, v%c31, idx, 'end')
     case (32); call cg_goto_f(fn, B, ier, v%c32, idx, 'end')
@@ -405,7 +482,7 @@ contains
     case (40); call cg_goto_f(fn, B, ier, v%c40, idx, 'end')
     case (80); call cg_goto_f(fn, B, ier, v%c80, idx, 'end')
     end select
-    op = 'goto'; call ier_out(ier); call kv('open', int(fn_open, 8)); call nl()
+    op = 'gotov'; call ier_out(ier); call nl()
   end subroutine
 
   subroutine op_dl_sol_info()
